@@ -45,6 +45,16 @@ var hugeOffsets = []*big.Int{
 	sub1(pow2(64)), pow2(64), sub1(pow2(256)), pow2(255), sub1(pow2(63)), new(big.Int).Sub(pow2(64), big.NewInt(32)),
 }
 
+// hugeMemOffsets are the far-out values used as MEMORY offsets. Memory between about 2^28 and
+// 0xffffffffe0 bytes is affordable to the reference (its gas supply never binds: 4 GiB cost 2^45
+// gas) but never to the in-tree budget, so such a program is never compared; if the two
+// executions part ways before it (a known finding, a defect) the reference alone would
+// allocate gigabytes. Beyond 0xffffffffe0 both sides fail the instruction without allocating.
+var hugeMemOffsets = []*big.Int{
+	sub1(pow2(64)), pow2(64), sub1(pow2(256)), pow2(255), sub1(pow2(63)), new(big.Int).Sub(pow2(64), big.NewInt(32)),
+	big.NewInt(0xffffffffe1), pow2(41), pow2(160),
+}
+
 var smallOffsets = []uint64{0, 32, 64, 96, 128, 1, 31, 33, 63, 65, 160, 255, 256, 1000}
 var growOffsets = []uint64{2048, 4096, 10000, 32768, 100000}
 var sizes = []uint64{32, 0, 1, 31, 33, 64, 2, 96, 100}
@@ -58,8 +68,8 @@ type gen struct {
 	pure []bool
 	// open known findings whose triggering shape is excluded by construction
 	avoidS15, avoidStatic, avoidNonce, avoidSize bool
-	excl   map[string]bool
-	budget int
+	excl                                         map[string]bool
+	budget                                       int
 	// extra cast referred to by the program (gen_accounts_test.go)
 	used      map[string]bool
 	benef     [2][]byte
@@ -68,16 +78,19 @@ type gen struct {
 }
 
 type frame struct {
-	a       *asm
-	self    int  // contract index; -1 for code created during the transaction
-	entry   bool // runs with the caller-supplied top-level gas (entry contract, creation tx, their init codes)
-	pure    bool // no state modification, calls only pure code
-	created bool // init or runtime code of a contract created in this transaction
-	nest    int
-	level   int // distance from the entry code in the forward call graph (sets the gas operand)
-	minT    int // lowest contract index a call statement may address (forward edges only)
+	a        *asm
+	self     int  // contract index; -1 for code created during the transaction
+	entry    bool // runs with the caller-supplied top-level gas (entry contract, creation tx, their init codes)
+	pure     bool // no state modification, calls only pure code
+	created  bool // init or runtime code of a contract created in this transaction
+	nest     int
+	level    int // distance from the entry code in the forward call graph (sets the gas operand)
+	minT     int // lowest contract index a call statement may address (forward edges only)
 	inLoop   bool
 	recursed bool
+	// a creation that is likely to fail was emitted in this frame: as deployed (no 63/64 rule) it
+	// takes the frame's whole contract.Gas with it and later creations run into S15
+	gasBurnt bool
 }
 
 func (g *gen) i(lo, hi int, l string) int { return rapid.IntRange(lo, hi).Draw(g.t, l) }
@@ -138,7 +151,7 @@ func (g *gen) smallOff(f *frame) {
 	case k != 20:
 		f.a.pushInt(growOffsets[g.i(0, len(growOffsets)-1, "og")])
 	default:
-		f.a.pushBig(hugeOffsets[g.i(0, len(hugeOffsets)-1, "oh")])
+		f.a.pushBig(hugeMemOffsets[g.i(0, len(hugeMemOffsets)-1, "oh")])
 	}
 }
 
@@ -740,10 +753,16 @@ func (g *gen) initCode(parent *frame, noEmpty, jumpy bool) []byte {
 	f := &frame{a: newAsm(), self: -1, entry: parent.entry, created: true, nest: parent.nest + 1, minT: parent.minT, inLoop: true, level: parent.level + 1}
 	kind := g.i(0, 9, "ik")
 	// S15 open: a CREATE in a frame reached by a call must not deploy code
-	if !parent.entry && g.avoidS15 && (kind < 6 || kind == 9) {
+	if (!parent.entry || parent.gasBurnt) && g.avoidS15 && (kind < 6 || kind == 9) {
 		g.excl[sigS15] = true
 		kind = 6 + g.i(0, 2, "ik2")
 	}
+	burns := false
+	defer func() {
+		if burns && g.avoidS15 && g.avoidStatic {
+			parent.gasBurnt = true
+		}
+	}()
 	if (kind == 6 || kind == 8) && noEmpty {
 		// S16 (nonce 0) open: a CREATE2 that leaves an account without code could be repeated at
 		// the same address (collision check looks at nonce and code)
@@ -753,6 +772,10 @@ func (g *gen) initCode(parent *frame, noEmpty, jumpy bool) []byte {
 	if kind == 9 && g.avoidSize {
 		g.excl[sigS16Size] = true
 		kind = 0
+	}
+	if g.i(0, 3, "cself") == 0 {
+		// the account under construction looks at itself
+		g.inspectOnce(f, target{kind: "self", op: 0x30, vict: -1})
 	}
 	if jumpy {
 		// the constructor jumps (the lengths of the dead regions make init codes differ a lot in size
@@ -776,6 +799,7 @@ func (g *gen) initCode(parent *frame, noEmpty, jumpy bool) []byte {
 		}
 		switch g.i(0, 5, "cj2") {
 		case 0:
+			burns = true
 			g.badJump(f)
 		case 1, 2:
 			g.jumpOver(f, fillSizes[g.i(0, 6, "cfill2")])
@@ -816,6 +840,7 @@ func (g *gen) initCode(parent *frame, noEmpty, jumpy bool) []byte {
 		g.o(f, 0xfd, 2, 0)
 	case kind == 8:
 		if g.i(0, 1, "isd") == 0 {
+			burns = true
 			g.o(f, 0xfe, 0, 0)
 		} else {
 			g.pushAddr(f, false)
@@ -845,6 +870,9 @@ func (g *gen) emitCreate(f *frame, c2, jumpy bool) {
 	ln := uint64(len(init))
 	if g.i(0, 9, "clen") == 0 && !(c2 && g.avoidNonce) {
 		ln = uint64(g.i(0, len(init), "cl"))
+		if g.avoidS15 && g.avoidStatic {
+			f.gasBurnt = true
+		}
 	}
 	f.a.pushInt(ln)
 	f.a.pushInt(at)
@@ -910,7 +938,7 @@ func (g *gen) terminator(f *frame) {
 	case k < 29:
 		// RETURN with huge offset / size
 		g.size(f)
-		f.a.pushBig(hugeOffsets[g.i(0, len(hugeOffsets)-1, "rho")])
+		f.a.pushBig(hugeMemOffsets[g.i(0, len(hugeMemOffsets)-1, "rho")])
 		g.o(f, 0xf3, 2, 0)
 	default:
 		// truncated PUSH at the end of the code
@@ -1038,6 +1066,11 @@ func genCase(leg string) func(t *rapid.T) EVMCase {
 		c.Value = big.NewInt([]int64{0, 0, 0, 1, 1000}[g.i(0, 4, "value")]).Bytes()
 		c.Number = []uint64{5, 1, 2, 255, 256, 257, 300, 1000, 65536, 1000000}[g.i(0, 9, "number")]
 		c.Time = uint64(1500000000 + g.i(0, 1000, "time"))
+		if g.i(0, 5, "again") == 0 {
+			// the same message once more, as a second transaction over the state the first one left
+			// (contracts it created or destroyed, accounts it touched, counters it advanced)
+			c.Again = 1 + g.i(0, 4, "again2")/4
+		}
 		for k := range g.excl {
 			c.Excluded = append(c.Excluded, k)
 		}
